@@ -5,7 +5,7 @@
 import functools
 import time
 from datetime import datetime, timedelta
-from numbers import Number
+from numbers import Integral, Number
 
 import netCDF4
 import numpy as np
@@ -120,7 +120,10 @@ def to_timedelta(obj, numbers_as=None):
     if isinstance(obj, timedelta):
         return obj
     elif isinstance(obj, Number):
-        return timedelta(**{numbers_as: int(obj)})
+        # A float keeps its fraction (10.5 seconds are not 10 seconds):
+        return timedelta(**{
+            numbers_as: int(obj) if isinstance(obj, Integral) else float(obj)
+        })
     else:
         return pd.to_timedelta(obj).to_pytimedelta()
 
